@@ -716,6 +716,84 @@ pub fn build_world(seed: u64, long: bool, fat: bool, quiet: bool) -> Result<Worl
 	Ok(w)
 }
 
+/// Segment requests a peer may send: (type, height, index) with heights 0..=255 sampled and indices
+/// around 0, the last segment, 2^32, 2^63 and 2^64-1. The serving node must answer each with a
+/// segment or an error - no panic, no endless walk - and a kernel segment it does hand out must
+/// validate against the archive header.
+fn hostile_requests(world: &World, res: &mut CaseResult, seed: u64, long: bool, fat: bool, quiet: bool, only: Option<(u8, u8, u64)>) -> Option<Violation> {
+	let server = world.builder.chain();
+	let ah = server.txhashset_archive_header().ok()?;
+	let segmenter = Arc::new(server.segmenter().ok()?);
+	let heights: Vec<u8> = vec![0, 1, 2, 3, 4, 5, 6, 7, 8, 9, 10, 11, 12, 13, 16, 20, 31, 32, 33, 62, 63, 64, 65, 66, 70, 127, 128, 129, 192, 255];
+	let types = [SegmentType::Bitmap, SegmentType::Output, SegmentType::RangeProof, SegmentType::Kernel];
+	for (ti, ty) in types.iter().enumerate() {
+		for h in heights.iter() {
+			let mmr = match ty {
+				SegmentType::Kernel => ah.kernel_mmr_size,
+				SegmentType::Bitmap => grin_core::core::pmmr::insertion_to_pmmr_index((grin_core::core::pmmr::n_leaves(ah.output_mmr_size) + 1023) / 1024),
+				_ => ah.output_mmr_size,
+			};
+			let leaves = grin_core::core::pmmr::n_leaves(mmr);
+			let cap = 1u64.checked_shl(*h as u32).unwrap_or(1);
+			let last = if cap == 0 { 0 } else { leaves.saturating_sub(1) / cap };
+			let mut idxs = vec![0u64, 1, 2, 3, last, last + 1, last.wrapping_sub(1), (1u64 << 32) + 1, 1u64 << 63, (1u64 << 63) + 1, u64::MAX - 1, u64::MAX];
+			idxs.sort();
+			idxs.dedup();
+			for idx in idxs {
+				if let Some(o) = only {
+					if o != (ti as u8, *h, idx) {
+						continue;
+					}
+				}
+				let id = SegmentTypeIdentifier { segment_type: ty.clone(), identifier: SegmentIdentifier { height: *h, idx } };
+				let (tx, rx) = std::sync::mpsc::channel();
+				let seg2 = segmenter.clone();
+				let id2 = id.clone();
+				let ah2 = ah.clone();
+				std::thread::spawn(move || {
+					grin_core::global::set_local_chain_type(grin_core::global::ChainTypes::AutomatedTesting);
+					let r = std::panic::catch_unwind(std::panic::AssertUnwindSafe(|| {
+						let r = serve(&seg2, &id2);
+						// a kernel segment handed out must be sound
+						if let (Ok(resp), SegmentType::Kernel) = (&r, id2.segment_type) {
+							if let Ok(seg) = de::<Segment<TxKernel>>(&resp.bytes) {
+								if let Err(e) = seg.validate(ah2.kernel_mmr_size, None, ah2.kernel_root) {
+									return Err(format!("served but does not validate: {:?}", e));
+								}
+							}
+						}
+						Ok(r.is_ok())
+					}));
+					let _ = tx.send(match r {
+						Ok(Ok(served)) => Ok(served),
+						Ok(Err(e)) => Err(e),
+						Err(p) => Err(format!("panic: {}", p.downcast_ref::<String>().cloned().or_else(|| p.downcast_ref::<&str>().map(|s| s.to_string())).unwrap_or_else(|| "?".into()))),
+					});
+				});
+				res.runs += 1;
+				res.fault("hostile_segment_request");
+				let out = rx.recv_timeout(std::time::Duration::from_secs(20));
+				let replay = json!({"engine": "pibdsim", "property": "C16", "mode": "hostile-request", "case_seed": seed, "long": long, "fat": fat, "quiet": quiet, "type": ti, "height": h, "idx": idx.to_string()});
+				let mut v = match out {
+					Ok(Ok(served)) => {
+						if served {
+							res.probe("hostile_request_served");
+						} else {
+							res.probe("hostile_request_refused");
+						}
+						continue;
+					}
+					Ok(Err(e)) => viol(&format!("segment-request-failed:{:?}", ty), format!("request for {:?} segment (height {}, idx {}) on an MMR of {} leaves: {}", ty, h, idx, leaves, e)),
+					Err(_) => viol(&format!("segment-request-hung:{:?}", ty), format!("request for {:?} segment (height {}, idx {}) on an MMR of {} leaves was not answered within 20 s", ty, h, idx, leaves)),
+				};
+				v.replay = replay;
+				return Some(v);
+			}
+		}
+	}
+	None
+}
+
 pub fn case(tier: &str, seed: u64, case: u64) -> CaseResult {
 	let t0 = Instant::now();
 	let thorough = tier == "thorough";
@@ -743,9 +821,17 @@ pub fn case(tier: &str, seed: u64, case: u64) -> CaseResult {
 			res.probe("multi_chunk_bitmap_archive");
 		}
 	}
+	// the serving side against a hostile requester: segment requests with every height and extreme
+	// indices (the identifier is two integers straight off the wire)
+	if let Some(v) = hostile_requests(&world, &mut res, seed, long, fat, quiet, None) {
+		res.violations.push(v);
+	}
 	let runs = if thorough { 10 } else if fat { 2 } else { 4 };
 	let rng = SimRng::new(seed);
 	for run_i in 0..runs {
+		if !res.violations.is_empty() {
+			break;
+		}
 		let mut rr = rng.fork(&format!("pibd{}", run_i));
 		let mut cfg = RunCfg::draw(&mut rr);
 		if run_i == 0 {
@@ -797,6 +883,13 @@ pub fn replay(rp: &Value) -> Result<Option<Violation>, String> {
 		deliver_per_round: c["per_round"].as_u64().unwrap_or(4) as usize,
 	};
 	let mut world = build_world(seed, long, rp["fat"].as_bool().unwrap_or(false), rp["quiet"].as_bool().unwrap_or(false))?;
+	if rp["mode"].as_str() == Some("hostile-request") {
+		let mut res = CaseResult::new(0, seed);
+		let only = (rp["type"].as_u64().unwrap_or(0) as u8, rp["height"].as_u64().unwrap_or(0) as u8, rp["idx"].as_str().unwrap_or("0").parse().unwrap_or(0));
+		let v = hostile_requests(&world, &mut res, seed, long, rp["fat"].as_bool().unwrap_or(false), rp["quiet"].as_bool().unwrap_or(false), Some(only));
+		world.cleanup();
+		return Ok(v);
+	}
 	let out = run(&world, &cfg, rp["run_seed"].as_u64().unwrap_or(0), "pibd-replay");
 	for l in &out.log {
 		println!("  {}", l);
